@@ -854,3 +854,29 @@ Proof.
   destruct (Forall2_nth _ _ _ _ _ Hfg Ht) as (q' & Hq' & Hok). rewrite Hq in Hq'. injection Hq' as <-.
   cbn in Hok. destruct Hok as [_ Hleaf]. exact (Hleaf (OResp r) eq_refl).
 Qed.
+
+(* ---------- conditional fields do not touch what storability looks at ---------- *)
+Lemma hvalues_with_conditional n q h :
+  beq n (canonical_key (bs "If-None-Match")) = false -> beq n (canonical_key (bs "If-Modified-Since")) = false ->
+  hvalues n (q_hdr (with_conditional_headers q h)) = hvalues n (q_hdr q).
+Proof.
+  intros H1 H2. unfold with_conditional_headers. cbn [q_hdr].
+  destruct (hget (bs "Last-Modified") h); destruct (hget (bs "ETag") h);
+    rewrite ?hvalues_hset_other by assumption; reflexivity.
+Qed.
+
+Lemma parse_cc_with_conditional q h : parse_cc (q_hdr (with_conditional_headers q h)) = parse_cc (q_hdr q).
+Proof. unfold parse_cc. rewrite hvalues_with_conditional by reflexivity. reflexivity. Qed.
+
+Lemma understood_with_conditional q h :
+  is_request_method_understood (with_conditional_headers q h) = is_request_method_understood q.
+Proof.
+  unfold is_request_method_understood, hget. rewrite hvalues_with_conditional by reflexivity. reflexivity.
+Qed.
+
+(* so the evidence can be read for the request that was actually sent *)
+Lemma sent_for_same qc q0 : sent_for qc q0 ->
+  parse_cc (q_hdr q0) = parse_cc (q_hdr qc) /\ is_request_method_understood q0 = is_request_method_understood qc.
+Proof.
+  intros [->|[h ->]]; [split; reflexivity|]. split; [apply parse_cc_with_conditional|apply understood_with_conditional].
+Qed.
